@@ -11,6 +11,9 @@ import (
 	"context"
 	"database/sql"
 	"fmt"
+	"github.com/superfly/ltx"
+	"os"
+	"path/filepath"
 	"sort"
 	"strings"
 	"testing"
@@ -31,17 +34,23 @@ func genC14(t *rapid.T) lsw.Case {
 			ops = append(ops, m.AppOp(t))
 		} else {
 			k := rapid.SampledFrom([]string{"sync", "sync", "syncwait", "lsckpt", "lsckpt", "lsckpt", "snapshot", "compact", "reattach", "coldrestart"}).Draw(t, "lsop")
+			// one in ten syncs / checkpoints runs while the local staging of the next LTX files fails (a directory sits
+			// where the staging file has to be created): litestream reports an error, the source must be left as it was
+			blocked := 0
+			if (k == "sync" || k == "syncwait" || k == "lsckpt") && rapid.IntRange(0, 9).Draw(t, "stagingFails") == 0 {
+				blocked = 1
+			}
 			switch k {
 			case "coldrestart":
 				// everything stops (the last application connection to close deletes the WAL), then starts again
 				ops = append(ops, lsw.Op{K: k, N: rapid.IntRange(0, 1).Draw(t, "lsFirst")})
 				*m = *lsw.NewGenModelKeepTables(m)
 			case "lsckpt":
-				ops = append(ops, lsw.Op{K: k, M: rapid.SampledFrom([]string{"PASSIVE", "PASSIVE", "FULL", "RESTART", "TRUNCATE"}).Draw(t, "mode")})
+				ops = append(ops, lsw.Op{K: k, M: rapid.SampledFrom([]string{"PASSIVE", "PASSIVE", "FULL", "RESTART", "TRUNCATE"}).Draw(t, "mode"), S: blocked})
 			case "compact":
 				ops = append(ops, lsw.Op{K: k, L: 1})
 			default:
-				ops = append(ops, lsw.Op{K: k})
+				ops = append(ops, lsw.Op{K: k, S: blocked})
 			}
 		}
 	}
@@ -161,7 +170,22 @@ func execC14(c lsw.Case) (res core.Result) {
 			}
 			a.LSStep(lsw.Op{K: "sync"})
 		case lsw.IsLSOp(o.K):
+			var blockers []string
+			if o.S == 1 && a.DB != nil {
+				if pos, err := a.DB.Pos(); err == nil {
+					for k := 1; k <= 3; k++ {
+						p := filepath.Join(a.MetaDir(), "ltx", "0", ltx.FormatFilename(pos.TXID+ltx.TXID(k), pos.TXID+ltx.TXID(k))+".tmp")
+						if os.MkdirAll(p, 0o755) == nil {
+							blockers = append(blockers, p)
+						}
+					}
+					res.Labels = append(res.Labels, "local-staging-blocked")
+				}
+			}
 			sr := a.LSStep(o)
+			for _, p := range blockers {
+				_ = os.Remove(p)
+			}
 			if o.K == "lsckpt" && sr.Err == nil {
 				ckptOK++
 				if o.M == "PASSIVE" {
